@@ -483,10 +483,16 @@ func wtReadLimit(c *core.Ctx, R string) {
 	// data-type test false edge
 	notData := func(u *core.Unit, br core.Branch) int {
 		cmp, ok := u.BranchCmp(br)
-		if !ok || !isLocal(u.Info(), cmp.X, "frameType") || cmp.Val == nil || cmp.Op != token.EQL {
+		if !ok || !isLocal(u.Info(), cmp.X, "frameType") || cmp.Val == nil {
 			return 0
 		}
-		return -1 // false edge: frameType differs from that data type
+		switch cmp.Op {
+		case token.EQL:
+			return -1 // false edge: frameType differs from that data type
+		case token.NEQ:
+			return 1 // `frameType != TextMessage && frameType != BinaryMessage { return … }`
+		}
+		return 0
 	}
 	n := 0
 	for _, r := range returnsIn(adv) {
